@@ -34,6 +34,7 @@ def make_opt(directory, split, overwrite, cache_only, marker):
         def _run_optimizer(self, inputs, output, size_dict):
             con = dict(super()._run_optimizer(inputs, output, size_dict))
             con["verif_writer"] = marker
+            con["verif_pad"] = "a.b.c"        # interior 0x2e bytes in the pickled entry (0x2e also ends every pickle)
             Opt.ran = True
             return con
     Opt.ran = False
@@ -87,6 +88,18 @@ def install(plan, directory):
                 os.fsync(self.f.fileno())
                 if n < len(data) or plan[1] == plan[2]:
                     die()       # (num == den: all bytes written, crash before close)
+            if kind in ("afterbyte", "offset"):
+                if kind == "afterbyte":
+                    # right after the j-th INTERIOR occurrence of a byte value (0x2e is also pickle's STOP opcode)
+                    pos = [i for i, b_ in enumerate(data[:-1]) if b_ == plan[1]]
+                    n = pos[plan[2] - 1] + 1 if len(pos) >= plan[2] else None
+                else:
+                    n = plan[1] if plan[1] < len(data) else None
+                if n is not None:
+                    self.f.write(data[:n])
+                    self.f.flush()
+                    os.fsync(self.f.fileno())
+                    die()
             self.f.write(data)
             self.f.flush()
             if kind == "before" and plan[1] == "close":
